@@ -485,7 +485,8 @@ def r234(R):
         R.check(ok, "C04.R4", GRAIN, 1, "grain.UB", "UB == inv(ubi)", why)
         # grain.B is B of the grain's own cell
         gB = mods["grain"].func("grain.B")
-        R.check("ImageD11.unitcell.unitcell(self.unitcell).B" in ast.unparse(gB), "C04.R4", GRAIN, gB.lineno, "grain.B",
+        gB_txt = " ".join(pyfacts.resolved_src(gB, a_.value, 3, keep=("self",)) for a_ in ast.walk(gB) if isinstance(a_, ast.Assign)) + " " + ast.unparse(gB)
+        R.check("ImageD11.unitcell.unitcell(self.unitcell).B" in gB_txt.replace(" ", ""), "C04.R4", GRAIN, gB.lineno, "grain.B",
                 "B = unitcell.unitcell(self.unitcell).B", "grain.B is no longer computed from the grain's own cell by ImageD11.unitcell")
     finally:
         vn_py.INV_MODE[0] = "explicit"
